@@ -203,6 +203,29 @@ def run_impl(c):
               except Exception:
                   pass
       early = {}
+      # featuretypes()/seqids() listings: several of them alive at once on the one object, advanced in lock-step (plus one
+      # listing whose items nobody wants); each must still list exactly the distinct values
+      listing = {}
+      for qi, q in enumerate(qlist):
+          if q["q"] in ("types", "seqids") and qi % 2 == 0 and len(listing) < 4:
+              listing[qi] = iter(db.featuretypes() if q["q"] == "types" else db.seqids())
+      if listing:
+          listing[-1] = iter(db.seqids())
+          got = dict((qi, []) for qi in listing)
+          failed = {}
+          live = dict(listing)
+          while live:
+              for qi in list(live):
+                  try:
+                      got[qi].append(next(live[qi]))
+                  except StopIteration:
+                      del live[qi]
+                  except Exception as ex:
+                      failed[qi] = L.err_class(ex)
+                      del live[qi]
+          for qi in listing:
+              if qi >= 0:
+                  early[qi] = ["err", failed[qi]] if qi in failed else ["ok", got[qi]]
       for qi in sorted(pending, reverse=True):
           try:
               early[qi] = ["ok", [f.id for f in pending[qi]]]
